@@ -71,12 +71,14 @@ func (e *Exec) evCall(c *ast.CallExpr) Val {
 		}
 		if f, ok := fv.(FuncV); ok && f.Fn != nil && f.Fn.Pkg() != nil && f.Fn.Name() == "FilterAddrs" &&
 			f.Fn.Pkg().Path() == "github.com/multiformats/go-multiaddr" && len(args) >= 1 && !c.Ellipsis.IsValid() {
+			e.checkCallsite(c, fv, args)
 			res := e.filterAddrs(c, args[0], args[1:])
 			e.recordCallEvent(c, args[:1], res)
 			return res
 		}
 		if f, ok := fv.(FuncV); ok && f.Fn != nil && f.Fn.Pkg() != nil && f.Fn.Name() == "DeleteFunc" &&
 			f.Fn.Pkg().Path() == "slices" && len(args) == 2 {
+			e.checkCallsite(c, fv, args)
 			e.negateFilter = true
 			res := e.filterAddrs(c, args[0], args[1:])
 			e.negateFilter = false
@@ -174,6 +176,7 @@ func (e *Exec) callValue(c *ast.CallExpr, fv Val, args []Val, deferredCall bool)
 	default:
 		res = e.callValueNoEvent(c, fv, args, resT)
 	}
+	e.wfHeaps()
 	evArgs := args
 	if f, ok := fv.(FuncV); ok && f.Recv != nil {
 		evArgs = append([]Val{f.Recv}, args...)
@@ -268,7 +271,7 @@ func (e *Exec) callValueNoEvent(c *ast.CallExpr, fv Val, args []Val, resT types.
 	} else {
 		e.warn("unspecified external function %s: results havoc'd, no heap effect assumed (A-EXT)", key)
 	}
-	e.havocPointerArgs(c, args)
+	e.havocPointerArgs(c, args, fn)
 	e.havocBoxed()
 	e.invokeEscaped()
 	return e.havocResult(fn.Name(), resT)
@@ -1105,7 +1108,7 @@ func (e *Exec) lockInvariant(c *ast.CallExpr, op string) {
 
 // havocPointerArgs: an unspecified callee may write through pointer arguments: all fields of struct objects whose
 // address is passed (static type pointer-to-struct at the call site) are forgotten.
-func (e *Exec) havocPointerArgs(c *ast.CallExpr, args []Val) {
+func (e *Exec) havocPointerArgs(c *ast.CallExpr, args []Val, callee *types.Func) {
 	sets := map[string]*locSet{}
 	add := func(key, ref string) {
 		ls := sets[key]
@@ -1139,8 +1142,8 @@ func (e *Exec) havocPointerArgs(c *ast.CallExpr, args []Val) {
 	// slices handed over as interface values (sort.Slice(x, less), ...): the callee may permute / overwrite them
 	var idx []int
 	readOnly := false
-	if f, ok := e.calleeValue(c).(FuncV); ok && f.Fn != nil && f.Fn.Pkg() != nil {
-		switch f.Fn.Pkg().Path() {
+	if callee != nil && callee.Pkg() != nil {
+		switch callee.Pkg().Path() {
 		case "fmt", "errors", "log", "log/slog", "strings", "bytes", "reflect", "encoding/json", "slices":
 			readOnly = true // formatting / inspection only
 		}
